@@ -227,7 +227,7 @@ package tags
 //@ expect func(w io.Writer, ctx render.Context) error
 //@ props C10 C01
 //@ panics nothing
-//@ requires args: w != nil && ctx != nil
+//@ requires args: w != nil && ctx != nil && forall(k, 0, len(branches), branches[k].body != nil)
 //@ ghost evals Int = 0
 //@ ghost falsy Int = 0
 //@ ghost rendered Int = 0
@@ -257,7 +257,7 @@ package tags
 //@ expect func(w io.Writer, ctx render.Context) error
 //@ props C10 C01
 //@ panics nothing
-//@ requires args: w != nil && ctx != nil && forall(k, 0, len(cases), cases[k] != nil)
+//@ requires args: w != nil && ctx != nil && forall(k, 0, len(cases), cases[k] != nil && cases[k].body() != nil)
 //@ ghost tests Int = 0
 //@ ghost misses Int = 0
 //@ ghost rendered Int = 0
@@ -323,7 +323,9 @@ package tags
 //@ requires parsed: len(cycle.Values) > 0
 //@ ghost emitted Int = 0
 //@ ghost werr Val = nil
-//@ at call WriteString #1 assert roundRobin: exists(k, 0, len(cycle.Values), arg1 == cycle.Values[k])
+//@ ghost c0 Int = mapget(as(mapget(as(mapget(ctx.Bindings(), "forloop"), map[string]any), ".cycles"), map[string]int), cycle.Group)
+//@ at call WriteString #1 assert roundRobin: arg1 == cycle.Values[tmod(max(c0, 0), len(cycle.Values))]
+//@ ensures advanced: emitted == 1 ==> mapget(as(mapget(as(mapget(ctx.Bindings(), "forloop"), map[string]any), ".cycles"), map[string]int), cycle.Group) == max(c0, 0) + 1
 //@ at call WriteString #1: emitted = emitted + 1
 //@ at call WriteString #1: werr = result1
 //@ ensures once: emitted <= 1
